@@ -15,6 +15,11 @@ ENGINES = {
 
 # id -> dict(engine, category, text, note, technique, design)
 CHECKS = {
+    "C01": dict(
+        engine="specwalk+lexenum", category="model_checking", design="DESIGN.md section 5, C01",
+        technique="exhaustive walk of the finite specification graph (every reachable element type x sub-element edge x attribute x character-data spec, per version) instantiated as documents by an independent printer, plus bounded exhaustive value/encoding/layout enumeration; every document executed on the real loader and serializer and compared with the generator's tree",
+        text="For each of the 21 versions a generator builds documents (abstract trees printed by the harness's own XML printer in 1-4 layouts/quote/entity styles) containing every (element type, sub-element) edge, every attribute and every character-data spec valid in that version; the loaded model must equal the generator's tree, load->serialize->load must be the identity (tree, path index, referrer keys) and the second serialization byte-identical, strict and lenient, with no warnings. For one slot per distinct character-data spec (element, attribute and mixed position) all strings of <= 3 (4) characters over a 12-character alphabet of escapable/whitespace/unicode characters, all pattern members through every automaton transition, enum items and numeric forms are written in every entity encoding x quote style x layout. Hand-written specials cover comments and processing instructions in every position.",
+        note="Trusted: the harness printer and the whitespace rule of DESIGN section 8 (whitespace-only runs and outer whitespace of non-preserving kinds are insignificant). Values longer than the bound and encodings other than UTF-8 are outside."),
     "C02": dict(
         engine="lexenum", category="exploration", design="DESIGN.md section 5, C02",
         technique="bounded exhaustive enumeration of inputs (all token strings up to length L, all 1-2 edit neighbours and all prefixes of seed documents) executed on the real loader",
